@@ -27,7 +27,7 @@ ASSUMPTIONS = [
     'declared presentation duration vs reference duration tolerance 0.5 ms (+1 us for text rounding)',
     'shims + werkzeug test client as HTTP boundary',
 ]
-REQUIRED_COUNTERS = ['static.manifests', 'walk.number', 'walk.time', 'walk.ranges', 'past_end.checked',
+REQUIRED_COUNTERS = ['static.manifests', 'walk.number', 'walk.time', 'walk.ranges', 'past_end.checked', 'timeline.entries_compared',
                      'duration.checked', 'reach.generateSegmentList', 'reach.calculate_vod_params']
 
 UTC = datetime.timezone.utc
@@ -211,6 +211,22 @@ class StaticWalk:
                               exception=self.env.rec.last_exception)
                 break
             fetched.append((what, r.data))
+            # the entry describes the segment it names: S@t is its decode time, S@d its samples
+            try:
+                frag = ib.read_fragment(r.data)
+                res.count('timeline.entries_compared')
+                if frag.tfdt is not None and frag.tfdt[1] != e.t:
+                    res.violation('static-timeline-entry-time-differs-from-segment',
+                                  f'{label}: {what}: S@t={e.t} but the segment has tfdt {frag.tfdt[1]}', rp)
+                    break
+                dur = sum(ib.sample_durations(frag.trun, frag.tfhd, sf.trex))
+                if dur != e.d:
+                    res.violation('static-timeline-entry-duration-differs-from-samples',
+                                  f'{label}: {what}: S@d={e.d} but the samples of the segment last {dur} '
+                                  f'(entry {i} of {len(tl)})', rp)
+                    break
+            except Exception:
+                pass        # reported by chain() below
         if fetched:
             if len(fetched) > stored:
                 res.violation('static-timeline-lists-entries-beyond-shorter-track',
